@@ -69,9 +69,29 @@ PROPS = {
                  "placeholder strings longer than 2 characters"],
         assumptions=["the transient fields are those assigned outside __init__ (the same six the C10 ast scan finds)"],
     ),
+    "C15": dict(
+        modules=["harness.c15"],
+        level="other",
+        explanation="One symbolic step of the real Set/Modify/DeleteAttribute handlers (KMIP 1.x index form and 2.0 "
+                    "current/new/reference forms) from an object whose multi-valued lists have symbolic sizes, with "
+                    "index, new value, form and selectors symbolic; oracle = a reference model of the requested effect "
+                    "applied to a snapshot, compared field by field, plus 'protected attributes never change' and "
+                    "'failure changes nothing' on every path.",
+        stubs=["FakeSession", "NullLogger", "engine.time pinned"],
+        outside=["stored lists longer than 3", "text longer than 2 characters", "sequences (one step from an arbitrary "
+                 "object state covers them by induction over the list sizes in bound)"],
+        assumptions=[],
+    ),
 }
 
 CLAIMS = {
+    "C15": dict(
+        text="For every attribute name of the rule table (quick: the implemented ones plus representatives), each "
+             "operation and request form, and every index/value/list-size in the bounds: the nine protected "
+             "attributes and the owner are unchanged on every path, a failing call changes nothing, and a successful "
+             "call changes exactly the addressed instance to the requested value, which GetAttributes then reports.",
+        note="Reference effect model written from the statement; stub store; bounded list sizes and text lengths.",
+    ),
     "C11": dict(
         text="For each probe operation and KMIP version in the grid, with the identifier absent, existing or unknown, "
              "the response bytes and the resulting store are identical whether the engine starts fresh or from any "
